@@ -6,7 +6,8 @@ use snel_db::frontend::context::FrontendContext;
 use snel_db::verif_hooks as hooks;
 use std::sync::Arc;
 
-pub async fn handle(req: &Value, _ctx: &Arc<FrontendContext>) -> Value {
+pub async fn handle(req: &Value, ctx: &Arc<FrontendContext>) -> Value {
+    let _ctx = ctx;
     let what = req["what"].as_str().unwrap_or("");
     match what {
         // lifetimes: [{ "script": [ms relative to the lifetime's base...], "n": calls, "shard": id, "jump": ms }]
@@ -101,6 +102,94 @@ pub async fn handle(req: &Value, _ctx: &Arc<FrontendContext>) -> Value {
                 .map(|p| json!({"name": p.file_name().map(|n| n.to_string_lossy().to_string()), "entries": rec.recover_from_archive(p).map(|v| v.iter().map(|e| serde_json::to_string(e).unwrap_or_default()).collect::<Vec<_>>()).ok()}))
                 .collect();
             json!({"no_panic": r, "recovered": recovered, "archives": per_archive, "archive_dir": archive_dir})
+        }
+        // candidate zones of a query on one shard, from the real planner / selectors / pruners over the
+        // live on-disk segments, next to the contents of every zone (the tag column k)
+        "prune" => {
+            use snel_db::command::parser::command::parse_command;
+            use snel_db::engine::core::zone::selector::pruner::enum_pruner::EnumPruner;
+            use snel_db::engine::core::zone::selector::pruner::range_pruner::RangePruner;
+            use snel_db::engine::core::zone::selector::pruner::temporal_pruner::TemporalPruner;
+            use snel_db::engine::core::zone::selector::pruner::xor_pruner::XorPruner;
+            use snel_db::engine::core::zone::selector::pruner::{PruneArgs, ZonePruner};
+            use snel_db::engine::core::zone::zone_artifacts::ZoneArtifacts;
+            use snel_db::engine::core::{CandidateZone, ColumnLoader, ExecutionStep, FilterGroup, QueryPlan, ZoneCollector};
+            let shard = req["shard"].as_u64().unwrap_or(0) as u32;
+            let Some(base_dir) = hooks::shard_dir(shard) else { return json!({"error": "no shard"}) };
+            let live = hooks::live_segments(shard).unwrap_or_default();
+            let event_type = req["event_type"].as_str().unwrap_or("").to_string();
+            let uid = { ctx.registry.read().await.get_uid(&event_type) };
+            let Some(uid) = uid else { return json!({"error": "no uid"}) };
+            // zone contents
+            let mut zones_out = vec![];
+            for seg in &live {
+                let zs = CandidateZone::create_all_zones_for_segment_from_meta(&base_dir, seg, &uid);
+                let loader = ColumnLoader::new(base_dir.clone(), uid.clone());
+                for z in zs {
+                    let vals = loader.load_all_columns(&z, &["k".to_string()]);
+                    let mut ks = vec![];
+                    if let Some(col) = vals.get("k") {
+                        for i in 0..col.len() {
+                            ks.push(col.get_i64_at(i));
+                        }
+                    }
+                    zones_out.push(json!({"segment": seg, "zone": z.zone_id, "ks": ks}));
+                }
+            }
+            let mut queries_out = vec![];
+            for q in req["queries"].as_array().cloned().unwrap_or_default() {
+                let text = q.as_str().unwrap_or("").to_string();
+                let cmd = match parse_command(&text) {
+                    Ok(c) => c,
+                    Err(e) => {
+                        queries_out.push(json!({"query": text, "error": format!("parse: {:?}", e)}));
+                        continue;
+                    }
+                };
+                let seg_ids = Arc::new(std::sync::RwLock::new(live.clone()));
+                let Some(plan) = QueryPlan::new(cmd, &ctx.registry, &base_dir, &seg_ids, None).await else {
+                    queries_out.push(json!({"query": text, "error": "no plan"}));
+                    continue;
+                };
+                let plan = Arc::new(plan);
+                let plan2 = Arc::clone(&plan);
+                let base2 = base_dir.clone();
+                let live2 = live.clone();
+                let uid2 = uid.clone();
+                let r = tokio::task::spawn_blocking(move || {
+                    std::panic::catch_unwind(std::panic::AssertUnwindSafe(|| {
+                        let steps: Vec<ExecutionStep<'_>> = plan2.filter_groups.iter().map(|f| ExecutionStep::new(f.clone(), plan2.as_ref())).collect();
+                        let collected: Vec<Value> = ZoneCollector::new(plan2.as_ref(), steps).collect_zones().iter().map(|z| json!([z.segment_id, z.zone_id])).collect();
+                        // every structure on its own, for each plain comparison of the plan
+                        let mut filters = vec![];
+                        for f in &plan2.filter_groups {
+                            let FilterGroup::Filter { column, operation, value, index_strategy, .. } = f else { continue };
+                            if column == "event_type" || column == "context_id" || value.is_none() || operation.is_none() {
+                                continue;
+                            }
+                            let mut per_seg = vec![];
+                            for seg in &live2 {
+                                let args = PruneArgs { segment_id: seg, uid: &uid2, column, value: value.as_ref(), op: operation.as_ref() };
+                                let ids = |r: Option<Vec<CandidateZone>>| r.map(|v| v.iter().map(|z| z.zone_id).collect::<Vec<u32>>());
+                                let surf = ids(RangePruner { artifacts: ZoneArtifacts::new(&base2, None) }.apply_surf_only(&args));
+                                let zxf = ids(XorPruner { artifacts: ZoneArtifacts::new(&base2, None) }.apply_zone_index_only(&args));
+                                let xf = ids(XorPruner { artifacts: ZoneArtifacts::new(&base2, None) }.apply_presence_only(&args));
+                                let ebm = ids(EnumPruner { artifacts: ZoneArtifacts::new(&base2, None) }.apply(&args));
+                                let temporal = ids(TemporalPruner { artifacts: ZoneArtifacts::new(&base2, None) }.apply_temporal_only(&args));
+                                per_seg.push(json!({"segment": seg, "surf": surf, "zxf": zxf, "xf": xf, "ebm": ebm, "temporal": temporal}));
+                            }
+                            filters.push(json!({"column": column, "op": format!("{:?}", operation), "value": format!("{:?}", value), "strategy": format!("{:?}", index_strategy), "segments": per_seg}));
+                        }
+                        json!({"collected": collected, "filters": filters})
+                    }))
+                })
+                .await;
+                match r {
+                    Ok(Ok(v)) => queries_out.push(json!({"query": text, "result": v})),
+                    _ => queries_out.push(json!({"query": text, "error": "panic"})),
+                }
+            }
+            json!({"zones": zones_out, "queries": queries_out, "live": live})
         }
         _ => json!({"error": format!("unknown internal op {}", what)}),
     }
